@@ -34,6 +34,8 @@ def kauri_case(seed, prop, i, nmax=40):
         p["kernel"] = "precomputed"
     else:
         p["kernel"] = ks[int(rng.integers(0, len(ks)))]
+    if rng.random() < 0.125:
+        p["verbose"] = True        # messages must not change what is computed
     if n < leaf:
         n = leaf + int(rng.integers(0, 4))
         X = gen.make_data(rng, n, d, kind)
